@@ -601,6 +601,10 @@ def main(tier):
     X.setup()
     rep = common.Report("C07")
     items = [(tier, c) for c in classes(tier)]
+    from engines.rsym import build
+
+    build.ensure_built()  # build / parse once before the workers fork (a cold cache must not be filled by 16 workers at once)
+    build.image()
     results = common.pool_map(run_class, items)
     tot = {k: 0 for k in ("paths", "exec", "obligations", "discharged", "unknown", "syntactic")}
     solver_time = 0.0
